@@ -247,6 +247,8 @@ def run_driver(lines):
 def _norm(x):
     """canonical form: object keys sorted; lists under a key ending in `_set` are multisets"""
     if isinstance(x, dict):
+        if "panic" in x:
+            return {"panic": True}     # the panic message is not part of the comparison
         out = {}
         for k, v in x.items():
             v = _norm(v)
